@@ -399,12 +399,44 @@ package ion
 //@ ensures[C03] forall k int :: err == nil && 0 <= k && uint64(k) < old(b.len) ==> result[k] == old(bsByte(b, k))
 //@ safe[C06]
 
+// Decimal decoding (C01, C03): the exponent is the leading VarInt, the coefficient the
+// sign-and-magnitude integer that fills the rest; negative zero is a zero magnitude with
+// the sign bit set, and nothing else is.
+//@ func (*bitstream).readBigInt
+//@ split returns
+//@ requires bsStream(b) && ret != nil && length > 0
+//@ modifies b.pos, vcStreamOf(b.in).cur, *ret
+//@ ensures[C03,C06] bsStream(b) && b.pos-old(b.pos) <= length
+//@ ensures[C01,C03] err == nil ==> result == (old(bsByte(b, 0))&0x80 != 0)
+//@ ensures[C03,C08] err == nil ==> b.pos == old(b.pos)+length && bsS(b).cur == old(bsS(b).cur)+int(length)
+//@ ensures[C03] length < 1<<63 && uint64(old(bsAvail(b))) >= length ==> err == nil
+//@ ensures[C07,C19] length >= 1<<63 || uint64(old(bsAvail(b))) < length ==> err != nil
+//@ safe[C06]
+
+//@ func NewDecimal
+//@ modifies nothing
+//@ ensures[C01,C03] result != nil && result.n == n && result.scale == -exp && result.isNegZero == negZero
+
+//@ func (*bitstream).readDecimal
+//@ split returns
+//@ requires bsStream(b) && bsPos(b) && bsRoom(b, length)
+//@ modifies b.pos, vcStreamOf(b.in).cur
+//@ ensures[C03,C06] bsStream(b) && bsPos(b)
+//@ ensures[C03,C08] err == nil ==> b.pos == old(b.pos)+length && bsS(b).cur == old(bsS(b).cur)+int(length) && result != nil && result.n != nil
+//@ ensures[C01,C03] err == nil && length > 0 ==> int64(-result.scale) == specVarIntValue(bsS(b).data, old(bsS(b).cur), specVarUintEnd(old(bsS(b))))
+//@ ensures[C01,C03] err == nil && length == 0 ==> result.scale == 0 && !result.isNegZero && result.n.Sign() == 0
+//@ ensures[C01,C03] err == nil && length > 0 && length == specVarUintEnd(old(bsS(b))) ==> !result.isNegZero && result.n.Sign() == 0
+//@ ensures[C01,C03] err == nil && length > 0 && length > specVarUintEnd(old(bsS(b))) ==>
+//@    result.isNegZero == (old(bsByte(b, int(specVarUintEnd(bsS(b)))))&0x80 != 0 && result.n.Sign() == 0)
+//@ safe[C06]
+
 //@ func (*bitstream).ReadDecimal
-//@ trusted assumed for callers until the decimal decoding is under contract: consumes exactly the value or fails
+//@ split returns
 //@ requires bsLocal(b) && bsOn(b, bitcodeDecimal)
 //@ modifies b.pos, b.state, b.code, b.null, b.len, vcStreamOf(b.in).cur
-//@ ensures bsStream(b)
-//@ ensures err == nil ==> bsLocal(b) && bsConsumed(b, old(b.pos), old(bsS(b).cur), old(b.len)) && result != nil
+//@ ensures[C06] bsStream(b)
+//@ ensures[C03,C06,C08] err == nil ==> bsLocal(b) && bsConsumed(b, old(b.pos), old(bsS(b).cur), old(b.len)) && result != nil
+//@ safe[C06]
 
 //@ func (*bitstream).readNsecs
 //@ trusted assumed for ReadTimestamp until the decimal decoding is under contract: consumes exactly length bytes or fails
